@@ -48,6 +48,7 @@ type specEnv struct {
 	loopEntry *State
 	atFresh map[string]sval
 	inEval  bool
+	inTrigger bool
 }
 
 type specErr string
@@ -327,6 +328,12 @@ func (env *specEnv) lookupIdent(name string) (sval, bool) {
 	// addressable local (its cell): the name denotes the cell's content
 	if env.fr != nil {
 		if a, ok := env.fr.srcAddrs[name]; ok && a != nil {
+			if al, isAl := a.(*ssa.Alloc); isAl && localStructAlloc(al) {
+				if _, ok := env.fr.vals[a]; ok {
+					et := al.Type().Underlying().(*types.Pointer).Elem()
+					return sval{t: env.fr.localLoad(env.st, al, nil, et), typ: et}, true
+				}
+			}
 			if t, ok := env.fr.vals[a]; ok {
 				return env.deref(sval{t: t, typ: a.Type()}), true
 			}
@@ -535,6 +542,9 @@ func (env *specEnv) eval(e Expr) sval {
 			}
 			has := sel(sel(eng.get(env.st, eng.mapDomComp(xt)), m), k)
 			raw := sel(sel(eng.get(env.st, eng.mapValComp(xt)), m), k)
+			if env.inTrigger {
+				return sval{t: raw, typ: xt.Elem()} // patterns must be ite-free
+			}
 			return sval{t: ite(has, raw, vc.zero(xt.Elem())), typ: xt.Elem()}
 		}
 		env.fail("cannot index %s", x.typ)
@@ -739,7 +749,9 @@ func (env *specEnv) evalQuant(q *EQuant) sval {
 	for _, tr := range q.Triggers {
 		var ts []string
 		for _, te := range tr {
+			env.inTrigger = true
 			v := env.eval(te)
+			env.inTrigger = false
 			if v.ref != nil && strings.Contains(v.ref.ix, "(sidx ") {
 				// trigger on the location, not on a particular heap version
 				ts = append(ts, v.ref.ix)
@@ -1051,6 +1063,20 @@ func (env *specEnv) evalCall(c *ECall) sval {
 			sub.st = rec.After
 			v := sub.eval(c.Args[1])
 			return sval{t: sub.rv(v), typ: v.typ}
+		case "beforecall":
+			// beforecall(@pattern, e): e evaluated in the state right before the dominating call
+			at, ok := c.Args[0].(*EAt)
+			if !ok || env.fr == nil {
+				env.fail("beforecall(@pattern, e) needs a call pattern and a code context")
+			}
+			rec := env.fr.findDominatingCall(at.Pat)
+			if rec == nil || rec.Before == nil {
+				env.fail("beforecall(@%s): no dominating call matches", at.Pat)
+			}
+			sub := *env
+			sub.st = rec.Before
+			v := sub.eval(c.Args[1])
+			return sval{t: sub.rv(v), typ: v.typ}
 		case "someTrue":
 			// someTrue(@pattern): on the current path some call matching the pattern was executed and returned true
 			at, ok := c.Args[0].(*EAt)
@@ -1296,8 +1322,93 @@ func (env *specEnv) callRec(pf *PureFn, args []Expr) sval {
 	return sval{t: app(ri.sym, append(hs, ats...)...), typ: ri.rt}
 }
 
+// hidden: the top-level contract asked for this pure function to stay uninterpreted in this VC.
+func (env *specEnv) hidden(pf *PureFn) bool {
+	top := env.eng.topFrame
+	if top == nil || top.con == nil || pf.Body == nil {
+		return false
+	}
+	for _, h := range top.con.Hides {
+		if h == pf.Name || strings.HasSuffix(h, "."+pf.Name) {
+			return true
+		}
+	}
+	return false
+}
+
+// callOpaque: a heap-parametric uninterpreted application (same symbol and heap footprint wherever it occurs).
+func (env *specEnv) callOpaque(pf *PureFn, args []Expr) sval {
+	e := env.eng
+	vc := e.vc
+	if e.recFns == nil {
+		e.recFns = map[string]*recInfo{}
+	}
+	key := "opaque:" + pf.Pkg.Path() + "." + pf.Name
+	sub := *env
+	sub.pkg = pf.Pkg
+	sub.con = nil
+	var ptypes []types.Type
+	for _, p := range pf.Params {
+		ptypes = append(ptypes, sub.resolveType(p.Type))
+	}
+	var ats []Term
+	var asv []sval
+	for i := range pf.Params {
+		a := env.eval(args[i])
+		pt := ptypes[i]
+		if !isUntyped(a.typ) && vc.sortOf(a.typ) == vc.sortOf(pt) {
+			pt = a.typ
+			ptypes[i] = pt
+		}
+		asv = append(asv, a)
+		ats = append(ats, env.coerce(a, pt))
+	}
+	ri := e.recFns[key]
+	if ri == nil {
+		binder := &heapBinder{}
+		bst := &State{pc: "true", heap: map[string]Term{}, alloc: "alloc@0", binder: binder}
+		benv := &specEnv{eng: e, fr: env.fr, fn: env.fn, st: bst, old: bst, vars: map[string]binding{}, pkg: pf.Pkg}
+		for i, p := range pf.Params {
+			benv.vars[p.Name] = binding{sym(fmt.Sprintf("oq$%s", p.Name)), ptypes[i]}
+		}
+		vc.noname++
+		ri = &recInfo{sym: sym("opq$" + pf.Name), declaring: true}
+		e.recFns[key] = ri
+		bv := benv.eval(pf.Body)
+		vc.noname--
+		ri.declaring = false
+		ri.rt = bv.typ
+		if pf.Result != "" {
+			ri.rt = sub.resolveType(pf.Result)
+		}
+		if isUntyped(ri.rt) {
+			ri.rt = tInt
+		}
+		ri.comps = binder.comps
+		var sorts []string
+		for _, c := range binder.comps {
+			sorts = append(sorts, e.compSort[c])
+		}
+		for _, t := range ptypes {
+			sorts = append(sorts, vc.sortOf(t))
+		}
+		vc.decls = append(vc.decls, fmt.Sprintf("(declare-fun %s (%s) %s)", ri.sym, strings.Join(sorts, " "), vc.sortOf(ri.rt)))
+	}
+	var hs []Term
+	for _, c := range ri.comps {
+		hs = append(hs, e.get(env.st, c))
+	}
+	return sval{t: app(ri.sym, append(hs, ats...)...), typ: ri.rt}
+}
+
 func (env *specEnv) callPure(pf *PureFn, args []Expr) sval {
 	vc := env.eng.vc
+	if !pf.Rec && env.hidden(pf) {
+		if len(args) != len(pf.Params) {
+			env.fail("%s: expected %d arguments", pf.Name, len(pf.Params))
+		}
+		return env.callOpaque(pf, args)
+	}
 	if pf.Rec {
 		if len(args) != len(pf.Params) {
 			env.fail("%s: expected %d arguments", pf.Name, len(pf.Params))
